@@ -8,10 +8,13 @@ use rayon::prelude::*;
 use serde_json::json;
 use std::collections::BTreeMap;
 
+/// A numeral above the f64 range (310 digits): rejected as INVALID NUMBER.
+const HUGE: &str = "9999999999999999999999999999999999999999999999999999999999999999999999999999999999999999999999999999999999999999999999999999999999999999999999999999999999999999999999999999999999999999999999999999999999999999999999999999999999999999999999999999999999999999999999999999999999999999999999999999999999999999999";
+
 pub fn atoms() -> Vec<&'static str> {
     vec![
         "PRINT", "GOTO", "GO", "TO", "IF", "X", "A$", "$", "12", ".5", ".", "<", "=", ">", "(",
-        "+", "\"s t\"", "\"", " ", "\t", "é", "%", ":", ",", "REM r ", "DATA d , e ", "NOT", "1",
+        "+", "\"s t\"", "\"", " ", "\t", "é", "%", ":", ",", "REM r ", "DATA d , e ", "NOT", "1", HUGE,
     ]
 }
 
